@@ -43,6 +43,7 @@ Print Assumptions C02_string_literals.
 Theorem C02_unsigned_integers_exact : forall n rest, n < two64 -> ends_number rest ->
   parse_json_number (dec_digits n ++ rest) = Ok (VNum (NUInt n), rest).
 Proof. exact parse_uint_token. Qed.
+Print Assumptions C02_unsigned_integers_exact.
 Theorem C02_negative_integers_exact : forall z rest, (- two63 <= z < 0)%Z -> ends_number rest ->
   parse_json_number (dec_Z z ++ rest) = Ok (VNum (NInt z), rest).
 Proof. exact parse_negint_token. Qed.
@@ -85,6 +86,7 @@ Proof.
 Qed.
 Theorem C02_number_tokens_accepted : forall t n rest, jnumber t n -> ends_number rest -> parse_json_number (t ++ rest) = Ok (VNum n, rest).
 Proof. exact number_complete. Qed.
+Print Assumptions C02_number_tokens_accepted.
 Theorem C02_number_tokens_only : forall bs v rest, parse_json_number bs = Ok (v, rest) -> exists t n, bs = t ++ rest /\ v = VNum n /\ jnumber t n.
 Proof. exact number_sound. Qed.
 Print Assumptions C02_string_literals_exact.
@@ -94,6 +96,7 @@ Print Assumptions C02_number_tokens_only.
    part of the documented language, so every RFC 8259 document is accepted and yields the value it denotes *)
 Theorem C02_rfc8259_is_part_of_the_documented_language : forall t v, rfc_text t v -> jtext t v.
 Proof. exact rfc_text_jtext. Qed.
+Print Assumptions C02_rfc8259_is_part_of_the_documented_language.
 Theorem C02_every_rfc8259_document_is_accepted_with_its_meaning : forall t v, rfc_text t v -> parse_value t = Ok v.
 Proof. exact rfc_complete. Qed.
 Print Assumptions C02_every_rfc8259_document_is_accepted_with_its_meaning.
